@@ -521,8 +521,8 @@ func genWithProfile(prop string, seed uint64, idx int, r *Rng, p Profile) *Scena
 	sc.CO2Stomata = r.Intn(2)
 	sc.NDeposition = float64(r.Range(0, 60))
 	sc.LeachDepth = n
-	if !p.LeachBottom {
-		sc.LeachDepth = r.Range(1, n)
+	if !p.LeachBottom || (prop != "C02" && prop != "C07" && prop != "C14" && r.Bool(0.4)) {
+		sc.LeachDepth = r.Range(1, n) // the N balance (C02) is stated for a leaching depth at the profile bottom; everything else must hold for any depth
 	}
 	sc.Latitude = float64(r.Range(-400, 680)) / 10
 	if r.Bool(0.15) {
@@ -534,7 +534,7 @@ func genWithProfile(prop string, seed uint64, idx int, r *Rng, p Profile) *Scena
 	sc.OrgMinProp = pickFloat(r, []float64{0.13, 0.1, 0.2, 0.05})
 	sc.KcBare = pickFloat(r, []float64{0.4, 0.6, 0.3, 0.65, 1.0})
 	sc.AnnualTemp = float64(r.Range(-20, 250)) / 10
-	sc.PotMin = r.Intn(2)
+	sc.PotMin = r.Intn(3)
 	sc.OutInterval = pickI(r, p.OutIntervals)
 	sc.ResultFormat = r.Intn(2)
 	sc.ResultExt = ""
@@ -1025,7 +1025,7 @@ func genEvents(sc *Scenario, r *Rng, p Profile) {
 	if r.Bool(p.PreStartEv) {
 		fz = append(fz, s0-r.Range(1, 300))
 	}
-	fz = dropAfterPair(sortDedup(fz, 2))
+	fz = sortDedup(fz, 2) // a same-day pair may be followed by an event on the next day (the shift then cascades)
 	for _, z := range fz {
 		row := fertTable[r.Intn(len(fertTable))]
 		sc.Fert = append(sc.Fert, FertEvent{DateOfZeit(z), r.Range(1, 250), row.Name})
@@ -1044,7 +1044,7 @@ func genEvents(sc *Scenario, r *Rng, p Profile) {
 	if r.Bool(p.PreStartEv) {
 		tz = append(tz, s0-r.Range(1, 300))
 	}
-	tz = dropAfterPair(sortDedup(tz, 2))
+	tz = sortDedup(tz, 2)
 	// a same-day pair is shifted by one day: keep the shifted day inside the fallow window (windows have margin 2)
 	for _, z := range tz {
 		maxDepth := 40
